@@ -556,10 +556,8 @@ func runJob(j *solveJob, timeoutS int) {
 	n := 0
 	for i := 1; i < len(j.vars); i++ {
 		v := j.vars[i]
+		// every solver on every variant: each of the three is the only one to decide some obligations
 		ss := solvers
-		if !v.full {
-			ss = solvers[:2]
-		}
 		for _, sv := range ss {
 			n++
 			go func(i int, sv solverSpec, full bool) {
